@@ -868,4 +868,126 @@ example : (runU (wL, Ghost.init wL) histL).2.sent ("channel-0", .native "uatom")
 /-- a fresh instantiation to which `channel_ledger_fresh` / `solvency_fresh` apply -/
 example : ∃ s, instantiate ⟨3600, ⟨true, "gov"⟩, [(⟨true, "T1"⟩, none)], some 100000⟩ = .ok s := ⟨_, rfl⟩
 
+/-! ## Refunds: the ghosts `paidOut` / `swallowed` are real token movements -/
+
+/-- What the balances look like after `amt` of denomination `d` moved from the contract to `to`
+(`to ≠ self`): `to` has `amt` more, the contract `amt` less, every other balance of either kind is as
+before. -/
+def Moved (w w' : World) (d : Denom) (to : Addr) (amt : Nat) : Prop :=
+  match d with
+  | .native dn =>
+    w'.bankBal to dn = w.bankBal to dn + amt ∧ w'.bankBal w.self dn + amt = w.bankBal w.self dn ∧
+    (∀ a x, (a, x) ≠ (to, dn) → (a, x) ≠ (w.self, dn) → w'.bankBal a x = w.bankBal a x) ∧ w'.tok = w.tok
+  | .cw20 t =>
+    w'.tokBal t to = w.tokBal t to + amt ∧ w'.tokBal t w.self + amt = w.tokBal t w.self ∧
+    (∀ t' a, (t', a) ≠ (t, to) → (t', a) ≠ (t, w.self) → w'.tokBal t' a = w.tokBal t' a) ∧ w'.bank = w.bank
+
+/-- A payout that went through moved exactly its amount from the contract to its recipient. -/
+theorem payout_moved {w w' : World} {sub : SubMsg} {tv f : Bool} (hp : w.payout sub tv f = some w')
+    (hto : sub.to ≠ w.self) : Moved w w' sub.denom sub.to sub.amount := by
+  unfold World.payout at hp
+  unfold Moved
+  split at hp
+  · rename_i dn hden
+    split at hp
+    · simp at hp
+    · obtain ⟨hle, hb⟩ := bankSend_spec hp
+      have htk := (bankSend_frame hp).2.1
+      rw [hden]
+      refine ⟨?_, ?_, ?_, htk⟩
+      · have := hb sub.to dn; simp [Ne.symm hto] at this; exact this
+      · have := hb w.self dn; simp [hto] at this; rw [this]; omega
+      · intro a x h1 h2
+        have := hb a x
+        simp [Ne.symm h1, Ne.symm h2] at this; exact this
+  · rename_i t hden
+    split at hp
+    · simp at hp
+    · obtain ⟨hle, hb⟩ := tokSend_spec hp
+      have hbk := (tokSend_frame hp).2.1
+      rw [hden]
+      refine ⟨?_, ?_, ?_, hbk⟩
+      · have := hb t sub.to; simp [Ne.symm hto] at this; exact this
+      · have := hb t w.self; simp [hto] at this; rw [this]; omega
+      · intro t' a h1 h2
+        have := hb t' a
+        simp [Ne.symm h1, Ne.symm h2] at this; exact this
+
+theorem refund_effects_core {w w' : World} {chan : String} {p : Packet} {tv sv f : Bool} {s1 : State} {sub : SubMsg}
+    {oack : Option Ack} (hf : onPacketFailure w.st chan (some p) tv = .ok (s1, sub))
+    (hc : (({ w with st := s1 } : World).payout sub sv f = some w' ∧ oack = none) ∨
+          (({ w with st := s1 } : World).payout sub sv f = none ∧ w' = { w with st := s1 } ∧ oack = some .error))
+    (hs : p.sender ≠ w.self) :
+    outstanding w'.st chan p.denom + p.amount = outstanding w.st chan p.denom ∧
+    (∀ k, k ≠ (chan, p.denom) → outAt w'.st.chan k = outAt w.st.chan k) ∧
+    sub.to = p.sender ∧ sub.amount = p.amount ∧ sub.denom = p.denom ∧
+    ((oack = none ∧ Moved w w' p.denom p.sender p.amount) ∨
+     (oack = some .error ∧ w'.bank = w.bank ∧ w'.tok = w.tok)) := by
+  obtain ⟨p', ch, hp', hred, rfl, hto, hsa, hsd, _⟩ := onPacketFailure_spec hf
+  cases hp'
+  obtain ⟨cs, hg, hle, _, ho, _⟩ := reduceBalance_spec hred
+  have hst : w'.st.chan = ch := by
+    rcases hc with ⟨hp, _⟩ | ⟨_, rfl, _⟩
+    · rw [(payout_frame hp).1]
+    · rfl
+  refine ⟨?_, ?_, hto, hsa, hsd, ?_⟩
+  · rw [outstanding_eq, outstanding_eq, hst, ho]
+    simp [outAt, hg]; omega
+  · intro k hk; rw [hst, ho k]; simp [hk]
+  · rcases hc with ⟨hp, ha⟩ | ⟨_, rfl, ha⟩
+    · left
+      refine ⟨ha, ?_⟩
+      have := payout_moved hp (by rw [hto]; exact hs)
+      rw [hsd, hto, hsa] at this
+      exact this
+    · exact Or.inr ⟨ha, rfl, rfl⟩
+
+/-- **C11, refund_effects (timeout)** — ties the ghosts `paidOut` / `swallowed` of a refund to real
+tokens (clause "tokens paid out … including when a refund sub-call fails"): a processed timeout of a
+packet whose sender is not the contract itself reduces the channel balance of the packet's denomination
+by exactly the packet's amount, touches no other key, and then either (`o.ack = none`, the case in which
+`Ghost.failure` books the amount as `paidOut`) exactly that amount moved from the contract to the
+packet's sender — every other bank and cw20 balance unchanged — or (`o.ack = some error`, booked as
+`swallowed`) the refund sub-call failed and no bank or cw20 balance changed at all: the tokens stay in
+escrow. -/
+theorem refund_effects_timeout {w w' : World} {blk : Block} {chan : String} {p : Packet} {sv tv f : Bool} {o : Outcome}
+    (h : w.exec blk (.timeout chan (some p) sv tv f) = .ok (w', o)) (hs : p.sender ≠ w.self) :
+    outstanding w'.st chan p.denom + p.amount = outstanding w.st chan p.denom ∧
+    (∀ k, k ≠ (chan, p.denom) → outAt w'.st.chan k = outAt w.st.chan k) ∧
+    (∃ sub, o.sub = some sub ∧ sub.to = p.sender ∧ sub.amount = p.amount ∧ sub.denom = p.denom) ∧
+    ((o.ack = none ∧ Moved w w' p.denom p.sender p.amount) ∨
+     (o.ack = some .error ∧ w'.bank = w.bank ∧ w'.tok = w.tok)) := by
+  obtain ⟨s1, sub, hf, hsub, hc⟩ := exec_timeout_cases h
+  obtain ⟨h1, h2, h3, h4, h5, h6⟩ := refund_effects_core hf hc hs
+  exact ⟨h1, h2, ⟨sub, hsub, h3, h4, h5⟩, h6⟩
+
+/-- **C11, refund_effects (error acknowledgement)**: the same for a processed error acknowledgement. -/
+theorem refund_effects_ack {w w' : World} {blk : Block} {chan : String} {p : Packet} {sv tv f : Bool} {o : Outcome}
+    (h : w.exec blk (.ack chan (some p) (some false) sv tv f) = .ok (w', o)) (hs : p.sender ≠ w.self) :
+    outstanding w'.st chan p.denom + p.amount = outstanding w.st chan p.denom ∧
+    (∀ k, k ≠ (chan, p.denom) → outAt w'.st.chan k = outAt w.st.chan k) ∧
+    (∃ sub, o.sub = some sub ∧ sub.to = p.sender ∧ sub.amount = p.amount ∧ sub.denom = p.denom) ∧
+    ((o.ack = none ∧ Moved w w' p.denom p.sender p.amount) ∨
+     (o.ack = some .error ∧ w'.bank = w.bank ∧ w'.tok = w.tok)) := by
+  rcases exec_ack_cases h with ⟨e, _⟩ | ⟨_, s1, sub, hf, hsub, hc⟩
+  · cases e
+  · obtain ⟨h1, h2, h3, h4, h5, h6⟩ := refund_effects_core hf hc hs
+    exact ⟨h1, h2, ⟨sub, hsub, h3, h4, h5⟩, h6⟩
+
+/-- The ghost bookkeeping of a failure follows the acknowledgement exactly as `refund_effects_*` reads
+it: `paidOut` grows by the amount iff `o.ack = none`, `swallowed` otherwise. -/
+theorem failure_ghost (g : Ghost) (chan : String) (p : Packet) (o : Outcome) (k : Key) :
+    (g.failure chan p o).paidOut k = g.paidOut k + (if o.ack = none ∧ k = (chan, p.denom) then p.amount else 0) ∧
+    (g.failure chan p o).swallowed k = g.swallowed k + (if o.ack ≠ none ∧ k = (chan, p.denom) then p.amount else 0) := by
+  unfold Ghost.failure
+  cases o.ack <;> by_cases hk : k = (chan, p.denom) <;> simp [hk]
+
+/-- the refund of the 60 uatom in the C12-style history: processed, `o.ack = none`, alice is paid -/
+example : ∃ w' o, (run w0 (hist.take 1)).exec b0 (.timeout "channel-0" (some ⟨60, .native "uatom", "bob", "alice", none⟩) true true false)
+      = .ok (w', o) ∧ o.ack = none ∧ w'.bankBal "alice" "uatom" = 100 := ⟨_, _, rfl, by decide, by decide⟩
+/-- the same refund with a failing sub-call is swallowed: error data, balances unchanged, books reduced -/
+example : ∃ w' o, (run w0 (hist.take 1)).exec b0 (.timeout "channel-0" (some ⟨60, .native "uatom", "bob", "alice", none⟩) true true true)
+      = .ok (w', o) ∧ o.ack = some .error ∧ w'.bankBal "alice" "uatom" = 40 ∧
+        outstanding w'.st "channel-0" (.native "uatom") = 0 := ⟨_, _, rfl, by decide, by decide, by decide⟩
+
 end CwPlus.Props.C11
